@@ -191,7 +191,7 @@ def main(prop='C20'):
     t0 = time.time()
     parts = parallel(work, items, chunk=25)
     results, tw = [], [0, 0]
-    stats = {'queries': 0, 'unsat': 0, 'sat': 0, 'unknown': 0, 'solver_s': 0.0}
+    stats = dict.fromkeys(zq.STATS, 0)
     for p in parts:
         results += p['results']
         tw[0] += p['twins'][0]
